@@ -10,11 +10,15 @@ the set of recorded cases equals the spec's Cases for the slice that was run.
 """
 import json
 
+import errno
+
 from vlib import tlc, check
 from bind import c13_drivers as D
+from bind import c13_ops as OP
 from sim import chip_pn53x as P
 from sim import chip_rcs380 as R
 from sim import chip_udp as U
+from sim import chip_ops as O
 
 PID = "C13"
 QUICK_DRIVERS = ("pn532", "pn533", "rcs380", "acr122", "udp")
@@ -123,6 +127,124 @@ def walk(driver, tier, only_kinds=None):
 
 
 # ------------------------------------------------------------------------------------------------
+# operations: sense() / listen()  (bind/c13_ops.py has the scenarios)
+RF_CMDS = ("InListPassiveTarget", "InJumpForPSL", "InCommunicateThru", "InDataExchange", "TgGetInitiatorCommand",
+           "TgResponseToInitiator", "TgSetGeneralBytes", "InCommRF", "TgCommRF")
+QUICK_OP_STATUS = (0, 1, 2, 10, 11, 41, 49, 64, 128, 255)
+QUICK_OP_REG = (0, 1, 2, 32, 38, 48, 255)
+UDP_BIND_FAULTS = [("HostIO", 0), ("AddrInUse", 0)]
+
+
+def op_has_status(driver, cmd):
+    return ((cmd in RF_CMDS and cmd not in ("InListPassiveTarget", "InCommRF", "TgCommRF"))
+            or (driver == "pn533" and cmd in REG_READS + ("WriteRegister",))
+            or (driver == "rcs956" and cmd == "WriteRegister")
+            or (driver == "rcs380" and cmd in ("InSetRF", "InSetProtocol", "SwitchRF", "TgSetRF", "TgSetProtocol")))
+
+
+def op_faults_for(driver, cmd, tier):
+    """The faults injected at one host command of an operation (must equal DriverErr!OpFaults -- TLC checks)."""
+    if driver == "udp":
+        return list({"bind": UDP_BIND_FAULTS, "sendto": UDP_SEND_FAULTS}.get(cmd, UDP_RECV_FAULTS))
+    quick = tier == "quick"
+    fs = list(LINK_FAULTS_ACR122 if driver == "acr122" else LINK_FAULTS_PN53X)
+    if driver == "rcs380" and cmd in ("InCommRF", "TgCommRF"):
+        fs += [("CommStatus", m) for m in range(4096) if bin(m).count("1") <= (1 if quick else 2)]
+    if op_has_status(driver, cmd):
+        fs += [("ChipStatus", s) for s in (QUICK_OP_STATUS if quick else range(256))]
+    if cmd == "InListPassiveTarget":
+        fs += [("NbTg", s) for s in (0, 1, 2, 255)]
+    if driver in PN53X_FAM and cmd in REG_READS:
+        dom = range(65) if cmd == "ReadFIFOLevel" else range(256)
+        fs += [("RegValue", s) for s in dom if not quick or s in QUICK_OP_REG]
+    return fs
+
+
+def op_sim_fault(driver, kind, at, cmd, k, v):
+    if driver == "udp":
+        if cmd == "bind":
+            return O.UFault(at, "io", errno.EACCES if k == "HostIO" else errno.EADDRINUSE)
+        m = {"HostIOW": ("io", D.EIO), "DeviceGone": ("io", D.ENODEV), "ShortSend": ("short_send", 0),
+             "HostTimeout": ("lost", 0), "HostIO": ("io", D.EIO), "RfOff": ("rfoff", 0)}
+        if k in m:
+            return O.UFault(at, *m[k])
+        b = (OP.scenario(driver, kind).brty or OP.brty_of(kind)).encode()
+        raw = {("ShortFrame", 1): b, ("ShortFrame", 2): b + b" 0", ("BadChecksum", 0): b + b" zz",
+               ("WrongCode", 0): b"848B 00", ("Garbled", 1): b"\xff\xfe 00", ("Garbled", 2): b + b" 00 00"}[(k, v)]
+        return O.UFault(at, "raw", raw)
+    if k == "NbTg":
+        return O.FaultI(at, "status", v, nbtg=True)
+    if k == "RegValue" and cmd == "ReadRegister" and kind.startswith("LF"):
+        return O.FaultI(at, "regval", v, idx=2)           # listen_ttf polls Status1, Status2, CommIRq, DivIRq
+    return sim_fault(driver, at, k, v)
+
+
+def run_op(rig, kind, at, cmd, k, v):
+    scn, fn = OP.prepare(rig, kind)
+    rig.chip.arm(op_sim_fault(rig.driver, kind, at, cmd, k, v) if at else None)
+    o, x, val = OP.classify(fn)
+    return o, x, OP.same(scn, o, val)
+
+
+def walk_ops(driver, tier, only_kinds=None):
+    """-> list of batches (one per operation kind) of events, same shape as walk()."""
+    rig = D.Rig(driver, ops=True)
+    batches = []
+    for kind in OP.OP_KINDS:
+        if only_kinds and kind not in only_kinds:
+            continue
+        mode = OP.mode_of(kind)
+        o, x, sm = run_op(rig, kind, 0, None, None, None)
+        names = list(rig.chip.log)
+        ev = [dict(d=driver, k=kind, m=mode, at=0, c="-", f="None", v=0, o=o, x=x, same=sm)]
+        n = len(names)
+        for at in range(1, n + 1):
+            for (k, v) in op_faults_for(driver, names[at - 1], tier):
+                o, x, sm = run_op(rig, kind, at, names[at - 1], k, v)
+                seen = rig.chip.log[at - 1] if len(rig.chip.log) >= at else "?"
+                if o in ("Hang", "Internal"):
+                    rig = D.Rig(driver, ops=True)      # do not trust the object's state any further
+                ev.append(dict(d=driver, k=kind, m=mode, at=at, c=seen, f=k, v=v, o=o, x=x, same=sm))
+        batches.append(dict(id="%s/%s/%s" % (driver, kind, tier),
+                            slice=dict(d=driver, k=kind, tier=tier, n=n, cover=True), ev=ev))
+    return batches
+
+
+def op_key_of(e, n):
+    """driver family : driver method : host command : fault class -> outcome"""
+    d = e["d"]
+    fam = family(d)
+    meth = OP.method_of(e["k"])
+    mute = {"pn53x": 1, "rcs380": 1, "udp": 0}[fam] + (1 if d == "rcs956" else 0)
+    if fam == "pn53x" and d == "rcs956" and (e["c"] in ("ResetMode", "SetParameters", "TgSetGeneralBytes")
+                                             or (meth == "sense_dep" and e["at"] == 3)
+                                             or (meth == "listen_dep" and 3 <= e["at"] <= 6)):
+        fam = "rcs956"                                  # code of rcs956.py itself
+    if 0 < e["at"] <= mute or (OP.mode_of(e["k"]) == "sense" and OP.scenario(d, e["k"]).expect == "NoTarget"
+                               and e["at"] > n - mute):
+        meth = "mute"                                   # before the operation / after a sense that found nothing
+    f, o = e["f"], e["o"]
+    out = o if o != "Internal" else e["x"]
+    if o == "Hang":
+        return "%s:send_command:no-answer->Hang" % fam
+    if e["at"] == 0:
+        return "%s:%s:%s:no-fault->%s" % (fam, meth, OP.brty_of(e["k"]), out)
+    if f in ("ChipStatus", "CommStatus", "ErrorFrame"):
+        what = "chip-error"
+    elif f in ("RegValue", "NbTg"):
+        what = "value"
+    elif f in ("HostTimeout", "NoAck"):
+        what = "no-answer"
+    elif f in ("HostIO", "HostIOW", "DeviceGone", "AddrInUse"):
+        what = "host-io-error"
+    elif f == "RfOff":
+        what = "rf-off"
+    else:
+        what = "bad-frame"
+    return "%s:%s:%s:%s->%s" % (fam, meth, e["c"], what, out)
+
+
+# ------------------------------------------------------------------------------------------------
 def family(d):
     return "rcs380" if d == "rcs380" else ("udp" if d == "udp" else "pn53x")
 
@@ -169,17 +291,21 @@ def key_of(e, n):
 
 
 # ------------------------------------------------------------------------------------------------
-WITNESSES = ["W_Data", "W_Timeout", "W_BrokenLink", "W_Transmission", "W_Protocol", "W_IOErr", "W_NoData"]
+WITNESSES = ["W_Data", "W_Timeout", "W_BrokenLink", "W_Transmission", "W_Protocol", "W_IOErr", "W_NoData",
+             "W_Target", "W_NoTarget", "W_Unsupported"]
 
 
-def selftest_traces(b):
+def selftest_traces(b, op=False):
     """binding self-test: one corrupted field (outcome), one corrupted command name, one dropped event."""
     out = []
     t1 = json.loads(json.dumps(b))
     t1["id"] = b["id"] + "-corrupt"
     line = None
     for i, e in enumerate(t1["ev"]):
-        if e["f"] == "HostIO" and e["at"] == b["slice"]["n"] and e["o"] == "IOErr":
+        if op and e["f"] == "HostIO" and e["c"] == "TgInitAsTarget" and e["o"] == "IOErr":
+            e["o"], e["x"], e["same"], line = "Target", "LocalTarget", True, i + 1
+            break
+        if not op and e["f"] == "HostIO" and e["at"] == b["slice"]["n"] and e["o"] == "IOErr":
             e["o"], e["x"], line = "Data", "bytearray", i + 1
             break
     out.append((t1, "%s#%d" % (t1["id"], line)))
@@ -214,8 +340,11 @@ def run(tier, seed):
     batches = []
     for d in drivers:
         batches += walk(d, tier)
+    for d in ALL_DRIVERS:                              # the operations run on every driver in both tiers
+        batches += walk_ops(d, tier)
     by_id = {b["id"]: b for b in batches}
-    st = selftest_traces(by_id["%s/TT4A/%s" % (drivers[0], tier)])
+    st = selftest_traces(by_id["%s/TT4A/%s" % (drivers[0], tier)]) + \
+        selftest_traces(by_id["pn532/LDEPF/%s" % tier], op=True)
     verdicts, stats = tlc.validate_traces("Trace_DriverErr.tla", "Trace_DriverErr.cfg", PID,
                                           batches + [t for t, _ in st], shards=16, timeout=900 if quick else 3000)
     for t, must in st:
@@ -242,8 +371,12 @@ def run(tier, seed):
             if pv is None:
                 continue
             why = pv[3]
-            key = key_of(e, n) if why[1] == ["OutcomeAllowed"] else \
-                "data-intact:%s:%s:%s" % (family(e["d"]), e["k"], e["f"])
+            if e["k"] in OP.OP_KINDS:
+                key = op_key_of(e, n) if why[1] == ["OutcomeAllowed"] else \
+                    "target-intact:%s:%s:%s:%s" % (family(e["d"]), OP.method_of(e["k"]), e["c"], e["f"])
+            else:
+                key = key_of(e, n) if why[1] == ["OutcomeAllowed"] else \
+                    "data-intact:%s:%s:%s" % (family(e["d"]), e["k"], e["f"])
             ck.violation(key, "%s %s: fault %s(%s) at host command %d (%s) -> %s %s ; allowed %s" % (
                 e["d"], e["k"], e["f"], e["v"], e["at"], e["c"], e["o"], e["x"], sorted(why[4][1]) if len(why) > 4 else "?"),
                 replay=dict(kind="case", driver=e["d"], k=e["k"], at=e["at"], f=e["f"], v=e["v"]))
@@ -262,7 +395,23 @@ def run(tier, seed):
 
 def replay(rep, args):
     r = rep["replay"]
-    if r.get("kind") == "slice":
+    if r["k"] in OP.OP_KINDS and r.get("kind") == "slice":
+        bs = walk_ops(r["driver"], r["tier"], only_kinds=(r["k"],))
+    elif r["k"] in OP.OP_KINDS:
+        rig = D.Rig(r["driver"], ops=True)
+        mode = OP.mode_of(r["k"])
+        o, x, sm = run_op(rig, r["k"], 0, None, None, None)
+        names = list(rig.chip.log)
+        ev = [dict(d=r["driver"], k=r["k"], m=mode, at=0, c="-", f="None", v=0, o=o, x=x, same=sm)]
+        if r["at"]:
+            o, x, sm = run_op(rig, r["k"], r["at"], names[r["at"] - 1], r["f"], r["v"])
+            print("real outcome: %s %s ; host commands: %s" % (o, x, " ".join(rig.chip.log)))
+            ev.append(dict(d=r["driver"], k=r["k"], m=mode, at=r["at"], c=rig.chip.log[r["at"] - 1], f=r["f"], v=r["v"],
+                           o=o, x=x, same=sm))
+        else:
+            print("real outcome: %s %s ; host commands: %s" % (o, x, " ".join(names)))
+        bs = [dict(id="replay", slice=dict(d=r["driver"], k=r["k"], tier="thorough", n=len(names), cover=False), ev=ev)]
+    elif r.get("kind") == "slice":
         bs = [b for b in walk(r["driver"], r["tier"], only_kinds=(r["k"],))]
     else:
         rig = D.Rig(r["driver"])
